@@ -41,7 +41,8 @@ fn clean(s: &str) -> String {
             esc = true;
             continue;
         }
-        if c.is_ascii_graphic() || c == ' ' {
+        let boxy = ('\u{2500}'..='\u{257f}').contains(&c);
+        if !c.is_control() && !boxy {
             out.push(c);
         } else if !out.ends_with(' ') {
             out.push(' ');
@@ -139,7 +140,7 @@ struct RootOutcome {
     second: &'static str,
 }
 
-fn check_root(x: &WmoRoot, cfg: &[u8], v: WmoVersion, r: &mut CaseResult) -> RootOutcome {
+fn check_root(x: &WmoRoot, v: WmoVersion, r: &mut CaseResult) -> RootOutcome {
     let mut oc = RootOutcome { tiling: "-", parse_root: "-", parse_wmo: "-", second: "skipped" };
     let w1 = match write_root_bytes(x, v) {
         Ok(Ok(b)) => b,
@@ -179,6 +180,10 @@ fn check_root(x: &WmoRoot, cfg: &[u8], v: WmoVersion, r: &mut CaseResult) -> Roo
         if let Some(s) = section_of_root_chunk(&g.after) {
             broken.push(s.to_string());
         }
+    }
+    if broken.iter().any(|b| b == "groups") {
+        // parse_root may derive the bounds from the group list, which is out of its reach here
+        broken.push("header.bounding_box".to_string());
     }
     for id in ROOT_IDS {
         if wk.count(id) > 1 {
@@ -369,10 +374,12 @@ fn check_root(x: &WmoRoot, cfg: &[u8], v: WmoVersion, r: &mut CaseResult) -> Roo
         }
         Ok(Err(e)) => {
             oc.parse_wmo = "err";
-            if mohd_ok {
-                add(r, "root: parse_wmo fails on a written file".into(), e.to_string());
+            // a short MOHD explains an error only when it is the last chunk (the 64-byte read hits end of file)
+            let mohd_last = mohd.as_ref().map(|c| c.end == w1.len()).unwrap_or(false);
+            if !mohd_ok && mohd_last {
+                add(r, SYM_MOHD.into(), format!("MOHD size {:?} and last chunk; parse_wmo: {e}", mohd.as_ref().map(|c| c.end - c.start)));
             } else {
-                add(r, SYM_MOHD.into(), format!("MOHD size {:?}; parse_wmo: {e}", mohd.as_ref().map(|c| c.end - c.start)));
+                add(r, "root: parse_wmo fails on a written file".into(), e.to_string());
             }
         }
         Ok(Ok(ParsedWmo::Group(_))) => {
@@ -385,7 +392,7 @@ fn check_root(x: &WmoRoot, cfg: &[u8], v: WmoVersion, r: &mut CaseResult) -> Roo
                 add(r, "root: version differs after write->parse_wmo".into(), format!("{}", n.version));
             }
             if !mohd_ok {
-                let want = (expected_flags(x, v) & 0xFFFF) & !WmoFlags::HAS_SKYBOX.bits();
+                let want = (x.header.flags.bits() & 0xFFFF) & !WmoFlags::HAS_SKYBOX.bits();
                 let got = (n.flags as u32) & !WmoFlags::HAS_SKYBOX.bits();
                 if got != want || n.num_lod != 0 {
                     add(
@@ -420,12 +427,7 @@ fn check_root(x: &WmoRoot, cfg: &[u8], v: WmoVersion, r: &mut CaseResult) -> Roo
             }
         }
     }
-    let _ = cfg;
     oc
-}
-
-fn expected_flags(x: &WmoRoot, _v: WmoVersion) -> u32 {
-    x.header.flags.bits()
 }
 
 // ------------------------------------------------------------------ group oracle
@@ -494,24 +496,26 @@ fn check_group(g: &WmoGroup, v: WmoVersion, r: &mut CaseResult) -> GroupOutcome 
     }
     let mogp = top.chunks[1].clone();
     let lay = group_layout(&w1, &mogp);
-    oc.tiling = match lay.header_len {
-        Some(68) => "hdr68".into(),
-        Some(_) => "hdr_other".into(),
-        None => "sub_gaps".into(),
+    let tiles = lay.sub.gaps.is_empty();
+    oc.tiling = match (tiles, lay.header_len) {
+        (false, _) => "sub_gaps".into(),
+        (true, 68) => "hdr68".into(),
+        (true, _) => "hdr_other".into(),
     };
+    // sections not judged through the parser: their sub-chunk has a wrong size field or lies behind one
     let mut skip: Vec<String> = vec![];
-    if lay.header_len.is_none() {
+    if !tiles {
         let first_gap = lay.sub.gaps.iter().map(|g| g.at).min().unwrap_or(usize::MAX);
         for gp in &lay.sub.gaps {
             add(
                 r,
                 format!("group: sub-chunk {} size field does not cover the bytes written (next sub-chunk header not where the size says)", gp.after),
                 format!(
-                    "{} uncovered bytes at offset {} after {} (MOGP header taken as {} bytes); sub-chunks {:?}",
+                    "{} uncovered bytes at offset {} after {} (MOGP header {} bytes); sub-chunks {:?}",
                     gp.len,
                     gp.at,
                     gp.after,
-                    lay.used_len,
+                    lay.header_len,
                     lay.sub.ids()
                 ),
             );
@@ -519,11 +523,16 @@ fn check_group(g: &WmoGroup, v: WmoVersion, r: &mut CaseResult) -> GroupOutcome 
                 skip.push(s.to_string());
             }
         }
-        for c in &lay.sub.chunks {
-            if c.hdr >= first_gap {
-                if let Some(s) = section_of_group_chunk(&c.id) {
-                    skip.push(s.to_string());
-                }
+        // everything the writer emits behind the first bad size is out of reach of a chunk reader
+        let order = ["MOVT", "MOVI", "MONR", "MOTV", "MOCV", "MOBA", "MOBN", "MLIQ", "MODR"];
+        let bad: Vec<&str> = lay.sub.gaps.iter().map(|g| g.after.as_str()).collect();
+        let mut behind = false;
+        for id in order {
+            if behind || lay.sub.get(id).map(|c| c.hdr >= first_gap).unwrap_or(false) {
+                skip.push(section_of_group_chunk(id).unwrap().to_string());
+            }
+            if bad.contains(&id) {
+                behind = true;
             }
         }
     }
@@ -565,7 +574,7 @@ fn check_group(g: &WmoGroup, v: WmoVersion, r: &mut CaseResult) -> GroupOutcome 
 
     // ---- parse_wmo on the bytes as written
     let expected = group_model(g);
-    let hdr_ok = lay.used_len == 68;
+    let hdr_ok = lay.header_len == 68;
     let mut cur = Cursor::new(&w1[..]);
     let native = guarded(|| parse_wmo(&mut cur));
     let mut native_bad: Option<String> = None;
@@ -609,12 +618,12 @@ fn check_group(g: &WmoGroup, v: WmoVersion, r: &mut CaseResult) -> GroupOutcome 
         }
     }
     if let Some(why) = native_bad {
-        add(r, SYM_GHDR.into(), format!("header length found by the walker: {}; {}", lay.used_len, why));
+        add(r, SYM_GHDR.into(), format!("header length found by the walker: {}; {}", lay.header_len, why));
     }
 
     // ---- the writer's sub-chunk bytes behind a well-formed 68-byte header, judged by parse_wmo
     if !hdr_ok {
-        let sub = &w1[mogp.start + lay.used_len..mogp.end];
+        let sub = &w1[mogp.start + lay.header_len..mogp.end];
         let w = mogp68(g, sub);
         let mut cur = Cursor::new(&w[..]);
         let mut sk = skip.clone();
@@ -688,7 +697,7 @@ impl Space for RoundTrip {
         r.nontrivial = cfg.iter().any(|&l| l != 0);
         if self.root {
             let x = build_root(cfg, v);
-            let oc = check_root(&x, cfg, v, &mut r);
+            let oc = check_root(&x, v, &mut r);
             r.outcome = format!("root tiling={} parse_root={} parse_wmo={} second={}", oc.tiling, oc.parse_root, oc.parse_wmo, oc.second);
             r.count("root_roundtrips", 1);
         } else {
@@ -893,7 +902,7 @@ fn main() {
     let tier = c.tier;
     let (kr, kc) = (k_for("root", tier), k_for("convert_root", tier));
     c.rule = format!(
-        "A root is a function of 11 section levels (textures, materials, groups [incl. shared-prefix and duplicate names], portals, portal refs, visible lists, lights, doodad defs, doodad sets: none/one/many; skybox none/some; header plain/rich[stale in-memory counts]/custom bounds); a group of 10 (vertices, normals, tex coords, indices, batches, BSP nodes, vertex colours, liquid, doodad refs: none/one/many; header plain/rich). Round-trip spaces: every level vector with <= {kr} sections deviating from the all-empty and from the all-full baseline x 5 versions Classic..MoP. Conversion spaces: every vector with <= {kc} deviations x all 25 (from,to) pairs. A case is non-trivial when at least one section is populated; distinct by (level vector, version[s])."
+        "A root is a function of 11 section levels (textures none/one/non_ascii/many[shared prefixes]; materials, portals, portal refs, visible lists, lights, doodad defs, doodad sets: none/one/many; groups none/one/many[shared-prefix names]/dups[duplicate names]; skybox none/some; header plain/rich[stale in-memory counts]/custom bounds); a group of 10 (vertices, normals, tex coords, indices, batches, BSP nodes, vertex colours, liquid, doodad refs: none/one/many; header plain/rich). Round-trip spaces: every level vector with <= {kr} sections deviating from the all-empty and from the all-full baseline x 5 versions Classic..MoP. Conversion spaces: every vector with <= {kc} deviations x all 25 (from,to) pairs. A case is non-trivial when at least one section is populated; distinct by (level vector, version[s])."
     );
     c.assume("content equality is judged on a canonical per-section/per-field rendering (the library types have no PartialEq); derived fields are excluded: WmoRoot.version (all of Classic..MoP are stored as 17), HAS_SKYBOX header flag (derived from the skybox), WmoLight.properties (derived from light_type), texture_offset_index_map (checked separately), plane distance of portals, framebuffer_blend / set_index / convex volume planes / group materials (not stated by the property, no slot in the written format; kept at their defaults in the inputs)");
     c.assume("group files: the only working group parser is parse_wmo, which returns a different type than the writer takes; only fields with an unambiguous counterpart are compared (batch flag bytes and liquid contents are not), and a byte-identical second write of a parsed group cannot be formed through the public API");
@@ -1005,7 +1014,7 @@ fn repro() {
     let w = write_group_bytes(&g, WmoVersion::Classic).unwrap().unwrap();
     let top = walk(&w, 0, w.len(), &GROUP_TOP_IDS);
     let lay = group_layout(&w, &top.chunks[1]);
-    println!("   header_len {:?} (used {}), sub-chunks {:?}, gaps {:?}", lay.header_len, lay.used_len, lay.sub.chunks.iter().map(|c| (c.id.clone(), c.end - c.start)).collect::<Vec<_>>(), lay.sub.gaps);
+    println!("   header_len {}, sub-chunks {:?}, gaps {:?}", lay.header_len, lay.sub.chunks.iter().map(|c| (c.id.clone(), c.end - c.start)).collect::<Vec<_>>(), lay.sub.gaps);
 
     println!("== R10: legacy WmoGroupParser::parse_group");
     println!("   {:?}", WmoGroupParser::new().parse_group(&mut Cursor::new(&w[..]), 0).map(|_| "ok").map_err(|e| e.to_string()));
